@@ -34,6 +34,10 @@ func main() {
 		p := mustLoad(os.Args[2])
 		b, _ := json.MarshalIndent(p.computeFingerprints(), "", " ")
 		fmt.Println(string(b))
+	case "fieldprints":
+		p := mustLoad(os.Args[2])
+		b, _ := json.MarshalIndent(p.computeFieldprints(), "", " ")
+		fmt.Println(string(b))
 	case "roles":
 		mustLoad(os.Args[2])
 		debugTypeRoles()
